@@ -332,6 +332,7 @@ def gen_world(
             body = g.expr(rng.randint(0, max_depth))
             var["formulas"][s] = body
     # back edges: strictly earlier periods only, so no true cycle can arise
+    hot = set()
     if discipline in ("spiral", "spiral_cyclic"):
         n_back = rng.randint(1, 3)
         formula_vars = [i for i, v in enumerate(world["variables"]) if v["formulas"]]
@@ -352,6 +353,36 @@ def gen_world(
             leaf = g.read(target_index=j, earlier_only=True)
             s = pick(rng, sorted(var["formulas"]))
             var["formulas"][s] = ["b", pick(rng, ["+", "max", "-"]), var["formulas"][s], leaf]
+            if leaf[0] == "rd":
+                hot.update((i, j))
+    if discipline in ("spiral", "spiral_cyclic") and hot:
+        # readers of the quasi-circular variables: siblings that reach the same
+        # entries again later in the same request (as cache hits), directly and
+        # through one another - the interleavings cache pollution needs
+        readers = [i for i, v in enumerate(world["variables"]) if v["formulas"] and i > min(hot)]
+        for _ in range(rng.randint(2, 5)):
+            if not readers:
+                break
+            i = pick(rng, readers)
+            var = world["variables"][i]
+            same_unit = [h for h in hot if world["variables"][h]["unit"] == var["unit"] and h < i]
+            others = [r for r in readers if r < i and world["variables"][r]["unit"] == var["unit"]]
+            if not same_unit:
+                continue
+            g = ExprGen(rng, world, i, discipline)
+            s = pick(rng, sorted(var["formulas"]))
+            leaf = g.read(target_index=pick(rng, same_unit), earlier_only=chance(rng, 0.5))
+            if leaf[0] != "rd":
+                leaf = ["rd", world["variables"][pick(rng, same_unit)]["name"], "this", None, g._via(world["variables"][same_unit[0]])]
+                if leaf[4] == "skip":
+                    continue
+            expr = ["b", "+", leaf, var["formulas"][s]]
+            if others and chance(rng, 0.6):
+                o = world["variables"][pick(rng, others)]
+                via = g._via(o)
+                if via != "skip":
+                    expr = ["b", "+", expr, ["rd", o["name"], "this", None, via]]
+            var["formulas"][s] = expr
     if discipline in ("cyclic", "spiral_cyclic"):
         formula_vars = [i for i, v in enumerate(world["variables"]) if v["formulas"]]
         if formula_vars:
